@@ -266,6 +266,93 @@ def _run_listed_once(chk, build, ev, sp, mcv, draw, res):
         shutil.rmtree(wd, ignore_errors=True)
 
 
+def run_dump_soup(i):
+    """ovnidump decodes without emulating, so any sequence can be dumped: a
+    soup of listed events with PRNG arguments and unlisted codes, each often
+    repeated back to back, in two streams.  Every line must carry the
+    description of its own event, every unlisted code UNKNOWN."""
+    chk, build, evs = _CTX["chk"], _CTX["plain"], _CTX["evs"]
+    rng = chk.rng(i, "soup")
+    names = sorted(evs)
+    judg = [n for n in names if not evs[n]["jumbo"] or all(t in TYPESZ or t == "str" for t, _ in evs[n]["args"])]
+    res = {"viol": [], "judged": 0, "unknown_lines": 0, "repeats": 0}
+    wd = os.path.join(chk.scratch, "s-%d" % os.getpid())
+    # a few codes dominate one soup so that repeats and alternations are common
+    pool = []
+    for _ in range(rng.randint(2, 6)):
+        if rng.random() < 0.5:
+            pool.append(("L", rng.choice(judg)))
+        else:
+            near = rng.choice(judg)
+            code = near[:2] + rng.choice(PRINTABLE) if rng.random() < 0.7 else near[0] + rng.choice(PRINTABLE) + rng.choice(PRINTABLE)
+            pool.append(("L", code) if code in evs else ("U", code))
+    try:
+        expect = {}
+        t = 100
+        streams = {10: [], 11: []}
+        for tid in streams:
+            t += 1
+            streams[tid].append((t, "OHx", obs.i32(0, tid) + obs.u64(0), False))
+        for _ in range(rng.randint(10, 60)):
+            kind, code = rng.choice(pool) if rng.random() < 0.8 else ("L", rng.choice(judg))
+            tid = rng.choice([10, 11])
+            for _r in range(rng.choice([1, 1, 2, 3])):
+                t += 1
+                if kind == "L":
+                    ev = evs[code]
+                    vals = arg_values(rng, ev["args"])
+                    pl = pack_args(ev["args"], vals)
+                    if ev["jumbo"] and ev["args"] and ev["args"][-1][0] != "str":
+                        pl = pl + b"extra\0"
+                    streams[tid].append((t, code, pl, ev["jumbo"]))
+                    expect[t] = (code, expected_description(ev, vals), vals)
+                else:
+                    pl = bytes(rng.getrandbits(8) for _ in range(rng.choice([0, 0, 4, 8, 12, 16])))
+                    streams[tid].append((t, code, pl, False))
+                    expect[t] = (code, "UNKNOWN", None)
+                if _r:
+                    res["repeats"] += 1
+        for tid in streams:
+            t += 1
+            streams[tid].append((t, "OHe", b"", False))
+        shutil.rmtree(wd, ignore_errors=True)
+        for tid in streams:
+            obs.write_stream(wd, "L", 1, tid, obs.thread_meta(tid, 1, "L", cpus=[(0, 0)] if tid == 10 else None), streams[tid])
+        rd = emu.run_tool(build, "ovnidump", [wd])
+        if rd.sig or rd.timeout:
+            res["viol"].append(("dump-crash", "ovnidump died on a soup of listed and unlisted codes", rd.brief()))
+            return res
+        lines = []
+        for l in rd.out.split("\n"):
+            f = l.split(None, 3)
+            if len(f) < 3 or not f[0].lstrip("-").isdigit():
+                continue
+            lines.append((int(f[0]), f[1], f[3].strip() if len(f) > 3 else ""))
+        # clocks are printed relative to an origin of the tool's choosing: anchor on the last line
+        t0 = (t - lines[-1][0]) if lines else 0
+        seen = dict((c + t0, (m, d)) for c, m, d in lines)
+        for t, (code, want, vals) in sorted(expect.items()):
+            if want is None:
+                continue
+            res["judged"] += 1
+            res["unknown_lines"] += 1 if vals is None else 0
+            got = seen.get(t)
+            if got is None or got[0] != code:
+                res["viol"].append(("dump-line-missing", "no ovnidump line for %s at clock %d (found %r)" % (code, t, got),
+                                    {"case": i})); break
+            if got[1] != want.strip():
+                if vals is None:
+                    res["viol"].append(("dump-unlisted-described:" + code[:2], "ovnidump describes the unlisted code %s as %r"
+                                        % (code, got[1]), {"case": i, "code": code}))
+                else:
+                    res["viol"].append(("dump-decoding-in-sequence:" + code, "ovnidump prints %r for %s with %s in a sequence, "
+                                        "description gives %r" % (got[1], code, vals, want), {"case": i, "mcv": code}))
+                break
+        return res
+    finally:
+        shutil.rmtree(wd, ignore_errors=True)
+
+
 def run_probe(arg):
     """One-event probes of a batch of codes; returns list of (code, payload
     length, accepted, warned)."""
@@ -309,6 +396,13 @@ def main(argv):
         judged += res["judged"]
         for key, what, o in res["viol"]:
             chk.report(key, what, o)
+    # 4. ovnidump over soups of listed and unlisted codes
+    soup_j = soup_u = soup_r = 0
+    for res in core.pmap(run_dump_soup, list(range(300 if quick else 6000)), chunksize=4):
+        soup_j += res["judged"]; soup_u += res["unknown_lines"]; soup_r += res["repeats"]
+        for key, what, o in res["viol"]:
+            chk.report(key, what, o)
+    judged += soup_j
     # 2. exhaustive code probes
     listed = set(evs)
     codes = []
@@ -368,11 +462,14 @@ def main(argv):
                    "(2) every unlisted three-character code over the 94 printable characters in each of the eight models "
                    "as a one-event probe (empty payload and the payload sizes of listed events of that category), accepted "
                    "only inside the carve-outs (OB?, OU?, legacy codes accepted with a warning); (3) ovnidump line of each "
-                   "listed event with PRNG argument values vs an independent %{name}/%fmt{name} substitution. "
+                   "listed event with PRNG argument values vs an independent %{name}/%fmt{name} substitution; (4) ovnidump over "
+                   "soups of listed events and unlisted codes, often repeated back to back, in two streams: each line must "
+                   "describe its own event, unlisted codes UNKNOWN. "
                    "distinct_nontrivial = listed events + distinct unlisted codes probed",
            "samples": [{"listed": len(evs), "probed_codes": len(set(c for c, _ in work))},
                        {"probe": "6TC", "expected": "accepted only with a warning naming it as old"}],
-           "listed_events": len(evs), "listed_judgements": judged, "probe_runs": nprobe,
+           "listed_events": len(evs), "listed_judgements": judged, "dump_soup_lines_judged": soup_j,
+           "dump_soup_unlisted_lines": soup_u, "dump_soup_back_to_back_repeats": soup_r, "probe_runs": nprobe,
            "exhaustive": not quick, "exhaustive_scope": "8 models x 94 x 94 codes minus the listed ones"}
     return chk.finish(cov, assumptions=[
         "legal contexts come from spec/events.json (frozen); an event listed but unknown to the table is run bare",
